@@ -290,7 +290,9 @@ func ruleC14(c *Ctx, r *Report) {
 	sort.Strings(selNames)
 	r.Analysed["matcher_reaching_path_params"] = selNames
 	r.Floor("C14-R2", 15, "call sites carrying a matcher-reaching key path (about 30 today)")
+	detectorStripsDollarRule(c, r, p, "C14-R1")
 	nestedArraySelectionRule(c, r, p, "C14-R2")
+	boolRoleRule(c, r, p, c.placeholders(p).scalarFn, c.lookupFunctions(p), "C14-R2")
 	pathSliceNotWrittenRule(c, r, p, "C14-R2", "the names an ancestor passes down are changed under its feet: the selective decision of its later children sees a path that is not theirs")
 	var fns []*ssa.Function
 	for f := range p.Zone {
